@@ -210,6 +210,8 @@ def run(chk, facts, tier):
                     probs.append('`return false` at line %d although the address may have been found' % r.l)
                 if v == 1 and not notfound(ats, '!='):
                     probs.append('`return true` at line %d although the address may not have been found' % r.l)
+                if v == 1 and len(inc) == 1 and not precedes(fn, inc[0], r):
+                    probs.append('`return true` at line %d without ++free_size_ on the way: the address is reported as removed but stays a member (and the free size is one too small)' % r.l)
                 if v not in (0, 1):
                     probs.append('return value at line %d is computed' % r.l)
         chk.instance('remove-shape', fn, 'remove_from_white_list: swap-with-last removal of the found entry', not probs, '; '.join(probs), key='remove_from_white_list')
